@@ -309,6 +309,56 @@ fn special_programs() -> Vec<(&'static str, Prog, &'static str, bool)> {
         "1 2 5 object(a=5, b=2)\n",
         true,
     ));
+    // user methods that carry the Feeny names of built-ins are ordinary methods
+    v.push((
+        "user-methods-named-like-builtins",
+        Prog {
+            consts: vec![
+                s("add"),
+                s("eq"),
+                s("and"),
+                Const::Int(100),
+                Const::Method { name: 0, arity: 2, locals: 0, code: vec![Ins::Lit(3), Ins::Return] },
+                Const::Method { name: 1, arity: 2, locals: 0, code: vec![Ins::GetLocal(1), Ins::Return] },
+                Const::Method { name: 2, arity: 2, locals: 0, code: vec![Ins::GetLocal(0), Ins::Return] },
+                Const::Class(vec![4, 5, 6]),
+                Const::Int(5),
+                Const::Int(1),
+                s("+"),
+                s("~ ~ ~ ~ ~\n"),
+                s("main"),
+                Const::Method {
+                    name: 12,
+                    arity: 0,
+                    locals: 1,
+                    code: vec![
+                        Ins::Lit(8),
+                        Ins::Object(7),
+                        Ins::SetLocal(0),
+                        Ins::Lit(9),
+                        Ins::CallSlot(0, 2), // obj.add(1) -> 100 (own method)
+                        Ins::GetLocal(0),
+                        Ins::Lit(9),
+                        Ins::CallSlot(1, 2), // obj.eq(1) -> 1
+                        Ins::GetLocal(0),
+                        Ins::Lit(9),
+                        Ins::CallSlot(2, 2), // obj.and(1) -> obj
+                        Ins::GetLocal(0),
+                        Ins::Lit(9),
+                        Ins::CallSlot(10, 2), // obj + 1 -> parent 5 + 1 = 6
+                        Ins::Lit(8),
+                        Ins::Lit(9),
+                        Ins::CallSlot(0, 2), // 5 add 1 -> 6 (built-in Feeny spelling)
+                        Ins::Print(11, 5),
+                    ],
+                },
+            ],
+            globals: vec![],
+            entry: 13,
+        },
+        "100 1 object(..=5) 6 6\n",
+        true,
+    ));
     // method call: slot 0 = receiver, args in call order, locals null; Feeny spellings
     v.push((
         "method-frame-and-feeny",
